@@ -11,7 +11,8 @@ CONSTANTS
   MaxOps = 2
   Acts <- ActsAll
   InitStates <- InitsAll
+  NewOntId = TRUE
 VIEW view
 INVARIANTS TypeOK RevokedEmpty NoneEmpty KeysDistinct
-PROPERTIES OnlyAuthorized RevokedFinal
+PROPERTIES OnlyAuthorized RevokedFinal RevokedNotRegistered
 CHECK_DEADLOCK FALSE
